@@ -244,7 +244,7 @@ func genC12(t *rapid.T) *FileCase {
 	}
 	c := &FileCase{File: f, Switches: map[string]string{}}
 	for _, v := range []string{"V", "W"} {
-		c.Switches[v] = rapid.SampledFrom([]string{"A", "B", "1", "zz", "_x", "", "A ", " B", " 1 "}).Draw(t, "sw"+v)
+		c.Switches[v] = rapid.SampledFrom([]string{"A", "B", "1", "zz", "_x", "", "A ", " B", " 1 ", "0x2", "2"}).Draw(t, "sw"+v)
 	}
 	return c
 }
